@@ -631,6 +631,12 @@ def run(tier):
             frontier = lim
     total.merge(explore("%s-%s-decls" % (PROP, tier), decl_gen(tier), check, chunk=50, deadline=deadline))
     total.merge(explore("%s-%s-varying" % (PROP, tier), vary_gen(tier), check, chunk=100, deadline=deadline))
+    # module objects: a table / tuple made for objects of one module never holds an object of another one (the programs and the
+    # oracle are those of C17's wrong-module family: direct stores, and stores of what functions with declared or opaque results return)
+    from . import c17
+    from .. import build as _build
+    _build.ensure("asan", bins=("vdrv", "vmod"))
+    total.merge(explore("%s-%s-objects" % (PROP, tier), c17.wrongmod_gen(), c17.check, chunk=5, deadline=deadline))
     from ..core import explore_gcc
     total.merge(explore_gcc("%s-%s-level1" % (PROP, tier), level_gen(first_frontier), check, chunk=150, deadline=deadline))
     total.merge(explore("%s-%s-forall" % (PROP, tier), forall_gen(tier), check, chunk=50, deadline=deadline))
